@@ -2,6 +2,7 @@
     Statements only. *)
 From SV Require Import Model.Base Model.F64 Model.Throttle Model.Hotspot Spec.C07Spec Spec.C07SpecExec
   Proofs.C07Proofs.
+From SV Require Import Spec.C05hSpec Spec.MultiSpec Proofs.C05hProofs Proofs.MultiProofs.
 Open Scope Z_scope.
 
 (** The reference pacer: whatever the arrival times, costs and queue limit, consecutive
@@ -39,6 +40,15 @@ Theorem C07_flow_refines_pacer : forall r ops s now,
   has_panic (trun (mkTW now [(r, s)]) ops) = false ->
   ok_c07_flow r s now ops (trun (mkTW now [(r, s)]) ops) = true.
 Proof. exact c07_flow_holds. Qed.
+
+(** Several throttling rules on one resource: each keeps its own schedule, they are consulted
+    in order on the advancing clock (a queued request sleeps before the next rule is asked), the
+    first refusal rejects; the clock when build returns is the last scheduled time, hence not
+    before any rule's scheduled time. *)
+Theorem C07_flow_refines_pacers_multi : forall cs ops now,
+  has_panic (trun (mkTW now cs) ops) = false ->
+  ok_c07_flow_multi cs now ops (trun (mkTW now cs) ops) = true.
+Proof. exact c07_flow_multi_holds. Qed.
 
 (** Hotspot QPS throttling (millisecond clock, cost = round(batch * duration / q_v), strict
     queue limit), per parameter value with per-value overrides, in any mixed traffic: same
